@@ -33,7 +33,7 @@ def pair(want):
     from saml2_tophat.metadata import entity_descriptor
     asks = {} if want[3] else {'required_attributes': ['givenName', 'sn'], 'optional_attributes': ['mail', 'title']}
     sp_conf = env.sp_config(metadata_xml=[], want_response_signed=want[0], want_assertions_signed=want[1], want_assertions_or_response_signed=want[2],
-                            top_allow_unknown_attributes=want[3], **asks)
+                            top_allow_unknown_attributes=want[3], top_accepted_time_diff=want[4], **asks)
     idp_conf = env.idp_config(metadata_xml=[])
     sp0, idp0 = env.make_sp(sp_conf), env.make_idp(idp_conf)
     sp_md, idp_md = str(entity_descriptor(sp0.config)), str(entity_descriptor(idp0.config))
@@ -84,7 +84,7 @@ class Inputs(html.parser.HTMLParser):
 def replay(case):
     from saml2_tophat.saml import NameID
     scn = case['scn']
-    want = [scn['wantResp'], scn['wantAssert'], scn['wantEither'], scn['unknownAttr']]
+    want = [scn['wantResp'], scn['wantAssert'], scn['wantEither'], scn['unknownAttr'], scn['skew']]
     idp, sp, sp_md, idp_md = pair(want)
     rng = random.Random(json.dumps(scn, sort_keys=True) + str(case.get('seed', 0)))
     vals = values_of(scn['vclass'], rng)
